@@ -118,10 +118,27 @@ def rule_a(rep: Report, idx: SourceIndex) -> None:
 		raise AnalysisError('Modules.load vanished')
 	pm_ = parent_map(ml_load.node)
 	stores_ = [n for n in walk_no_nested(ml_load.node) if isinstance(n, ast.Assign) and isinstance(n.targets[0], ast.Subscript) and unparse(n.targets[0].value).endswith('__modules')]
+	# the registration and the stages behind it may sit in a private helper of Modules (`self.__load_fresh(path, language)`): the helper call is then
+	# what has to lie in the protecting try
+	via_helper: dict[int, list[ast.Call]] = {}
+	if not stores_:
+		for c_ in walk_no_nested(ml_load.node):
+			if isinstance(c_, ast.Call) and isinstance(c_.func, ast.Attribute) and isinstance(c_.func.value, ast.Name) and c_.func.value.id == 'self':
+				g_ = mods.cls('Modules').method(c_.func.attr)
+				if g_ is None or g_ is ml_load or not g_.name.startswith('_'):
+					continue
+				inner = [n for n in walk_no_nested(g_.node) if isinstance(n, ast.Assign) and isinstance(n.targets[0], ast.Subscript) and unparse(n.targets[0].value).endswith('__modules')]
+				stages = [x for x in walk_no_nested(g_.node) if isinstance(x, ast.Call) and isinstance(x.func, ast.Attribute) and x.func.attr in ('preprocess', '__load_dependencies') and inner and (x.lineno, x.col_offset) > (inner[0].lineno, inner[0].col_offset)]
+				if inner:
+					stores_.append(inner[0])
+					via_helper[id(inner[0])] = [c_] if stages else []
 	if not stores_:
 		r.skip('Modules.load:rollback', ml_load.where, 'Modules.load no longer registers the module in self.__modules')
 	for st_ in stores_:
-		later = [c_ for c_ in walk_no_nested(ml_load.node) if isinstance(c_, ast.Call) and isinstance(c_.func, ast.Attribute) and c_.func.attr in ('preprocess', '__load_dependencies') and (c_.lineno, c_.col_offset) > (st_.lineno, st_.col_offset)]
+		if id(st_) in via_helper:
+			later = via_helper[id(st_)]
+		else:
+			later = [c_ for c_ in walk_no_nested(ml_load.node) if isinstance(c_, ast.Call) and isinstance(c_.func, ast.Attribute) and c_.func.attr in ('preprocess', '__load_dependencies') and (c_.lineno, c_.col_offset) > (st_.lineno, st_.col_offset)]
 		if not later:
 			r.ok('Modules.load:rollback', (mods.relpath, st_.lineno), message='nothing that can fail runs after the registration')
 			continue
